@@ -24,6 +24,12 @@ from pathlib import Path
 VERIF = Path(__file__).resolve().parent.parent
 REPO = Path(os.environ.get("VERIF_REPO", "/repo"))
 WORK = VERIF / ".work"
+# one work directory per driver process, so that overlapping runs never touch each other
+TAG = f"{os.getpid()}"
+
+
+def workdir(prop: str) -> Path:
+    return WORK / f"{prop}-{TAG}"
 EVIDENCE = VERIF / "evidence"
 CRATES = {
     "core": VERIF / "harness" / "core",
@@ -106,7 +112,7 @@ def prepare_crate(prop: str, crate: str) -> Path:
     """Copy a harness crate into the property's work dir and settle its lockfile, so that
     parallel cargo invocations only read it.  Path dependencies point at /repo, hence every
     build compiles /repo's current working tree."""
-    dst = WORK / prop / f"crate-{crate}"
+    dst = workdir(prop) / f"crate-{crate}"
     if dst.exists():
         shutil.rmtree(dst)
     dst.parent.mkdir(parents=True, exist_ok=True)
@@ -214,7 +220,9 @@ def classify(text: str, rc: int, res: Result, timed_out: bool):
             return
         real = [f for f in res.failed if "unwinding assertion" not in f["description"]]
         unw = [f for f in res.failed if "unwinding assertion" in f["description"]]
-        if real:
+        if real and all("HARNESS-LIMIT" in f["description"] for f in real):
+            res.status = "limit"
+        elif real:
             res.status = "fail"
         elif unw:
             res.status = "unwind"
@@ -230,7 +238,7 @@ def classify(text: str, rc: int, res: Result, timed_out: bool):
 def run_job(prop: str, crate_dir: Path, job: Job, idx: int) -> Result:
     res = Result(job=job, status="error")
     safe = re.sub(r"[^A-Za-z0-9_]+", "_", job.name)
-    jdir = WORK / prop / "jobs" / f"{idx:03d}_{safe}"
+    jdir = workdir(prop) / "jobs" / f"{idx:03d}_{safe}"
     jdir.mkdir(parents=True, exist_ok=True)
     logf = jdir / "kani.log"
     cmd = kani_cmd(job, jdir / "target")
@@ -300,7 +308,7 @@ def extract_playback(prop: str, crate_dir: Path, job: Job, idx: int):
     """Re-run a failed harness asking Kani for concrete values; return the generated unit
     tests for the failing (non-cover) checks."""
     safe = re.sub(r"[^A-Za-z0-9_]+", "_", job.name)
-    jdir = WORK / prop / "jobs" / f"{idx:03d}_{safe}_pb"
+    jdir = workdir(prop) / "jobs" / f"{idx:03d}_{safe}_pb"
     jdir.mkdir(parents=True, exist_ok=True)
     cmd = kani_cmd(job, jdir / "target", playback=True)
     logf = jdir / "kani.log"
@@ -343,7 +351,7 @@ def native_playback(prop: str, job: Job, test: dict, profile_release: bool = Fal
     generated test appended to the harness' module and run it: the real code on the solver's
     input.  Returns (reproduced, output)."""
     src_crate = CRATES[job.crate]
-    dst = WORK / prop / "replay" / (test["test_fn"] + ("_rel" if profile_release else ""))
+    dst = workdir(prop) / "replay" / (test["test_fn"] + ("_rel" if profile_release else ""))
     if dst.exists():
         shutil.rmtree(dst)
     dst.parent.mkdir(parents=True, exist_ok=True)
